@@ -1117,7 +1117,7 @@ Qed.
        counter-run (oracle level): the oracle that always returns q = 0 (finite, so τ_init = 1).  The candidate is x + q = x with the same γ, its
        QUB test is the one x already passed, and the line-search test  φ(x) <= φ(x) - σ‖p‖² + (1+|φ(x)|)·tl  ACCEPTS it as soon as
        σ‖p‖² <= (1+|φ(x)|)·tl  (σ = β(1-Lγ)/(2γ)).  x does not move, ε stays above the tolerance, no_progress is incremented at every
-       iteration and the run returns NoProgress after max_no_progress iterations.  So for a tolerance below sqrt((1+|φ|)·tl/σ) (≈ 1e-7·sqrt((1+|φ|)γ)
+       iteration (once k reaches a multiple of max_no_progress) and the run returns NoProgress within 2·max_no_progress + 1 iterations.  So for a tolerance below sqrt((1+|φ|)·tl/σ) (≈ 1e-7·sqrt((1+|φ|)γ)
        with the default factor; the default tolerance is 1e-8) convergence can be defeated by a direction provider; a positive-tolerance
        theorem therefore needs the smallness hypothesis  s < cmin·δ²  (then x⁺ = x still forces ‖p‖ <= δ), or provider-specific reasoning
        (LBFGS with H ≻ 0 never returns q = 0 for p ≠ 0; NoopDirection never takes an accelerated step).
